@@ -23,6 +23,8 @@ MODS = {
     'ring2.py': 'from ring1 import h\n',
     'ring3.py': 'from ring2 import h\n',
     'selfimp.py': 'from selfimp import me\n',
+    'allmod.py': "_N = 'other'\nclass Api: pass\nmore = []\n__all__ = ['pub', _N, Api.__name__.lower(), *more, f'{_N}', 'a' + 'b', 3]\npub = 1\nother = 2\n",
+    'allmod2.py': "__all__ = make()\n__all__ += ['x']\n__all__ = __all__ = ('p', b'q', None)\np = 1\n",
 }
 
 ADVERSARIAL = [
@@ -76,6 +78,13 @@ ADVERSARIAL = [
     'x = x.y = x\nx.y.y\n',
     'import os  # type: module\nx = 1  # type: int\nif x:  # type: ignore\n    y = [  # type: list\n        x]\n# type: str\nprint(x, y)\n',
     'def f(a, b):  # type: (int, str) -> None\n    return a  # type: ignore[misc]\nf(1,  # type: int\n  2)\n',
+    'from allmod import *\npub\nother\nfrom allmod2 import *\np\n',
+    'class K:\n    if x:\n        return 1\n    for i in y:\n        yield i\n        break\n    with z:\n        return\n    def m(self): return 1\nK().m\n',
+    'if c:\n    K = dict\nelse:\n    K = list\nclass S(K): pass\nS().x\nS.y\nK().z\nK.w\n',
+    'x = 1\n\x0cy = x\ny\nz = "a\x0bb"\nz\n\x1cw = 1\n',
+    'x = 0\n' + 'if x: pass\n' * 250 + 'x\n',
+    'x = 0\n' + 'x = x.y\n' * 250 + 'x\n',
+    'class B:\n    async def f(self):\n        async with a as b, c as self.d:\n            async for self.e in b: pass\n        return [x async for x in y]\n    @deco\n    async def g(self): pass\nB().f\nB().g\n',
 ]
 
 
